@@ -6,8 +6,9 @@ def files():
     from vf import genlab as G
     T = G.T
     fd = G.new_file("acme/lab/v1/lab.proto", "acme.lab.v1")
-    G.add_message(fd, "Req", [G.F("name", 1, T.TYPE_STRING), G.F("type", 2, T.TYPE_STRING), G.F("force", 3, T.TYPE_BOOL, required=True),
-                              G.F("parent", 4, T.TYPE_STRING, required=True), G.F("note", 5, T.TYPE_STRING)])
+    # declaration order differs from field-number order inside both the required and the optional group
+    G.add_message(fd, "Req", [G.F("name", 3, T.TYPE_STRING), G.F("type", 1, T.TYPE_STRING), G.F("force", 5, T.TYPE_BOOL, required=True),
+                              G.F("parent", 2, T.TYPE_STRING, required=True), G.F("note", 4, T.TYPE_STRING)])
     G.add_message(fd, "Resp", [G.F("x", 1, T.TYPE_STRING)])
     a = G.add_service(fd, "WidgetService")
     G.add_method(a, "GetWidget", ".acme.lab.v1.Req", ".acme.lab.v1.Resp", http=("get", "/v1/{name=w/*}"))
@@ -19,15 +20,22 @@ def files():
     return [fd]
 
 
-def check(transport, selective=None):
+def check(transport, selective=None, namespace=None):
     from vf import genlab as G
     failures = []
     yaml = None
     if selective:
         yaml = {"type": "google.api.Service", "config_version": 3, "name": "lab.example.com", "publishing": {"library_settings": [
             {"version": "acme.lab.v1", "python_settings": {"common": {"selective_gapic_generation": {"methods": selective, "generate_omitted_as_internal": True}}}}]}}
-    api, res = G.generate(files(), f"autogen-snippets=false,metadata,transport={transport}", service_yaml=yaml)
+    api, res = G.generate(files(), f"autogen-snippets=false,metadata,transport={transport}" + (f",python-gapic-namespace={namespace}" if namespace else ""), service_yaml=yaml)
     by = {f.name: f.content for f in res.file}
+    if namespace:
+        # a namespace of two segments: the library package is <namespace, dotted, lower-case>.<name>_<version>
+        pkgdir = namespace.lower().replace(".", "/") + "/lab_v1"
+        meta = json.loads(by[pkgdir + "/gapic_metadata.json"])
+        want = namespace.lower() + ".lab_v1"
+        return [] if (meta.get("protoPackage"), meta.get("libraryPackage")) == ("acme.lab.v1", want) else \
+            [{"transport": transport, "namespace": namespace, "what": "library package", "got": meta.get("libraryPackage"), "want": want}]
     meta = json.loads(by["acme/lab_v1/gapic_metadata.json"])
     label = {"transport": transport, "selective": bool(selective)}
     want_kinds = (["grpc", "grpc-async"] if "grpc" in transport else []) + (["rest"] if "rest" in transport else [])
@@ -69,18 +77,18 @@ def check(transport, selective=None):
 
 
 def run_one(i):
-    cfgs = [("grpc", None), ("rest", None), ("grpc+rest", None), ("grpc+rest", ["acme.lab.v1.WidgetService.GetWidget"])]
+    cfgs = [("grpc", None), ("rest", None), ("grpc+rest", None), ("grpc+rest", ["acme.lab.v1.WidgetService.GetWidget"]), ("grpc", None, "Foo.Bar")]
     return check(*cfgs[i])
 
 
 def scenarios():
     import subprocess, sys, os
     failures = []
-    for i in range(4):
+    for i in range(5):
         code = "import json\nfrom props.C15_native import run_one\nprint('@@'+json.dumps(run_one(%d), default=str))" % i
         p = subprocess.run([sys.executable, "-c", code], capture_output=True, text=True, env=dict(os.environ))
         if "@@" not in p.stdout:
             failures.append({"config": i, "error": p.stderr[-600:]})
         else:
             failures += json.loads(p.stdout.rsplit("@@", 1)[1])
-    return {"cases": 4, "failures": failures}
+    return {"cases": 5, "failures": failures}
